@@ -86,6 +86,33 @@ theorem leg_opreg_formOk (ctx : Spec.X86.Ctx) (rule : Rule) (p : Parsed) (bytes 
   simp [hop, hreg, hs, hpp8, ha67, allOk]
   exact ⟨hw, by simpa using c66, by simpa using cF3, by simpa using cF2, cF0, c9B, by omega, by simpa using ccont⟩
 
+/-- legacy shape [register in the opcode byte, imm] (`B8+r iw|id|iq`): the immediate's own conditions are a hypothesis -/
+theorem leg_opreg_imm_formOk (ctx : Spec.X86.Ctx) (rule : Rule) (p : Parsed) (bytes : List (BitVec 8)) (pp : Nat)
+    (k : RegKind) (f0 f3 : FormOp) (id : Nat) (v : BitVec 64)
+    (hmode : ((if ctx.mode64 then rule.modes &&& 2 else rule.modes &&& 1) != 0) = true)
+    (hs : rule.space = 0) (hpp8 : rule.pp &&& 8 = 0)
+    (h66 : (rule.pp &&& 1 != 0 || rule.osz == 16) = (pp == 1)) (hF3 : (rule.pp &&& 2 != 0) = (pp == 2)) (hF2 : (rule.pp &&& 4 != 0) = (pp == 3))
+    (hpplt : pp < 4) (hri : rule.ri = true) (ha67 : rule.a67 = false)
+    (hk : PlainKind k) (hf0 : f0.role = .opc)
+    (hic : allOk (opConds ctx rule p 0 f3 (.imm v)).1 = true)
+    (hal : alignOps rule.oszEff rule.ops [.reg k id, .imm v] = some [(f0, some (.reg k id)), (f3, some (.imm v))])
+    (hparse : parse ctx.mode64 rule bytes = .ok p)
+    (hvk : p.vexKind = 0) (hpfx : p.prefixes = ppBytes pp) (hmodrm : p.modrm = Option.none) (hop : (p.opcode &&& 0xF8#8).toNat = rule.opcode)
+    (hw : wWant rule = 2 ∨ p.W = (wWant rule == 1))
+    (hreg : regNum false p.B (bits p.opcode 0 3) = id) :
+    formOk ctx rule [.reg k id, .imm v] {} bytes = true := by
+  obtain ⟨c66, cF3, cF2, cF0, c9B, c67, cseg, ccont⟩ := count_ppBytes pp hpplt
+  have hleg : isLegacySpace rule = true := by simp [isLegacySpace, hs]
+  have h2 : (opConds ctx rule p 0 f0 (.reg k id)).2 = 0 := by simp [opConds, hf0]
+  simp only [formOk, conds, hal, hparse, hmode]
+  simp only [operandConds, h2]
+  generalize opConds ctx rule p 0 f3 (.imm v) = X at hic ⊢
+  simp only [allOk_cons, allOk_append, decorConds, headConds, prefixConds, modrmConds, operandConds, opConds, tailConds, hf0,
+    regConds_plain _ _ _ _ _ hk, allOk_nil, memOperandOf, implMemOf, usesVvvv, memDestOf, hic,
+    hasBcst, hleg, hri, hmodrm, hpfx, hvk, c66, cF3, cF2, cF0, c9B, c67, cseg, ccont, h66, hF3, hF2, List.foldl, List.find?]
+  simp [hop, hreg, hs, hpp8, ha67, allOk]
+  exact ⟨hw, by simpa using c66, by simpa using cF3, by simpa using cF2, cF0, c9B, by omega, by simpa using ccont⟩
+
 /-- legacy shape [rm, imm] with an opcode-extension digit (`/d ib|iw|id`), arbitrary register kind, ANY immediate width / signedness: the
 immediate's own conditions of the monitor are a hypothesis (`hic`) -/
 theorem leg_rm_imm_formOkG (ctx : Spec.X86.Ctx) (rule : Rule) (p : Parsed) (mb : BitVec 8) (bytes : List (BitVec 8)) (pp d nimm : Nat)
